@@ -27,6 +27,10 @@ func DefaultBackoffConfig() BackoffConfig {
 
 func CalculateBackoff(cfg BackoffConfig, attempt int) time.Duration {
 	backoff := float64(cfg.InitialBackoff) * math.Pow(cfg.BackoffMultiplier, float64(attempt))
+	if math.IsNaN(backoff) {
+		// 0 * +Inf: a zero initial backoff stays zero however large the attempt number
+		backoff = 0
+	}
 	if backoff > float64(cfg.MaxBackoff) {
 		backoff = float64(cfg.MaxBackoff)
 	}
@@ -35,6 +39,10 @@ func CalculateBackoff(cfg BackoffConfig, attempt int) time.Duration {
 	finalBackoff := backoff + jitterAmount
 	if finalBackoff < 0 {
 		finalBackoff = backoff
+	}
+	if finalBackoff >= math.MaxInt64 {
+		// float64(math.MaxInt64) is 2^63; converting it would wrap to a negative duration
+		return time.Duration(math.MaxInt64)
 	}
 	return time.Duration(finalBackoff)
 }
